@@ -26,7 +26,7 @@ CHECKS = {
          "Children of the invalid block are produced by a harness-side builder that treats the invalid block as accepted; the step counter is hook H1 (cfg saito_verif), which also turns a livelock into a verdict instead of a hang.",
          "DESIGN.md §3 C04"),
  "C01": ("exploration",
-         "property-based adversarial testing: generated chain states x an edit catalogue of 25 invalid-transaction constructions (incl. privileged types without inputs, ATR-typed thefts, two valid spends of one output in one received block), judged by an independent reference ledger, offered to both pool entry points and (inside attacker-built blocks) to block validation",
+         "property-based adversarial testing: generated chain states x an edit catalogue of 26 invalid-transaction constructions (incl. privileged types without inputs, ATR-typed thefts, a BlockStake-typed spend of an expired output, two valid spends of one output in one received block), judged by an independent reference ledger, offered to both pool entry points and (inside attacker-built blocks) to block validation",
          "Honest forked histories (fees, golden tickets, rebroadcasts; gp 4..100) put a victim node into one of the state classes fresh / after reorg / after window wrap; every catalogue edit is built from the victim's real ledger, confirmed invalid by the independent reference ledger, and must be refused by Mempool::add_transaction_if_validates, by VerificationThread::verify_tx and by add_block of an attacker-built block with 0..3 honest fillers; an honest spend must be admitted. A validator that stops gating on any one rule (signature, ownership, existence, window, double spend, overspend, type privileges) accepts at least one catalogue entry.",
          "Staking (social_stake>0) state class is not generated. Adversary cannot forge signatures. The attacker's block is produced with the repository's Block::create, so its header is consistent with the invalid content.",
          "DESIGN.md §3 C01"),
